@@ -522,8 +522,23 @@ Definition rows_close_x (ulps u : Qc) (obs : list (list fval)) (exp : list (list
 
 Definition rect {A} (w : nat) (T : list (list A)) : bool := forallb (fun r => (length r =? w)%nat) T.
 
-(* a mean / std vector given by the user: its dtype and values; numpy broadcasts a vector of length 1 *)
-Definition given_vec (w : nat) (g : dtype * list fval) : outcome (list Qc) :=
+(* how a user-supplied mean / std takes part in numpy's result-type rule: an array or a numpy scalar carries its dtype;
+   a Python int / float is "weak": it adopts the dtype of the array it meets, except that an int meeting a bool array
+   gives the default integer and a float meeting a bool / integer array gives float64 *)
+Inductive gdtype := GArr (d : dtype) | GWeakInt | GWeakFloat.
+
+Definition promote_g (a : dtype) (g : gdtype) : dtype :=
+  match g with
+  | GArr d => promote2 a d
+  | GWeakInt => match a with DBool => DI64 | _ => a end
+  | GWeakFloat => if is_float a then a else DF64
+  end.
+
+(* numpy true division: integer (and bool) operands give float64 *)
+Definition div_dtype (r : dtype) : dtype := if is_float r then r else DF64.
+
+(* a mean / std given by the user: its type and values; numpy broadcasts a scalar or a vector of length 1 *)
+Definition given_vec (w : nat) (g : gdtype * list fval) : outcome (list Qc) :=
   match fvals_qc (snd g) with
   | None => Unsupported
   | Some m =>
@@ -534,16 +549,16 @@ Definition given_vec (w : nat) (g : dtype * list fval) : outcome (list Qc) :=
   end.
 
 (* dtype of CenterOn(mean, precision)(traces) *)
-Definition center_on_dtype (d p : dtype) (mean : option dtype) : dtype :=
+Definition center_on_dtype (d p : dtype) (mean : option gdtype) : dtype :=
   let P := promote d p in
-  match mean with Some md => promote2 P md | None => promote2 P (promote P DF32) end.
+  match mean with Some g => promote_g P g | None => promote2 P (promote P DF32) end.
 
 Record comb_case := {
   cc_op : comb_op;
   cc_cfg : comb_cfg;
   cc_dtype : dtype;                               (* dtype of the traces *)
   cc_prec : dtype;                                (* precision argument *)
-  cc_mean : option (dtype * list fval);           (* CenteredProduct(mean=...): dtype and values, None = batch mean *)
+  cc_mean : option (gdtype * list fval);          (* CenteredProduct(mean=...): type and values, None = batch mean *)
   cc_width : nat;
   cc_in : list (list fval);                       (* the traces, row by row, exact *)
   cc_obs : observed
@@ -599,7 +614,7 @@ Definition comb_explain (c : comb_case) : outcome (dtype * list (list Q)) :=
 
 (* ================================================================ 6. first-order preprocesses *)
 
-Definition given := option (dtype * list fval).
+Definition given := option (gdtype * list fval).
 
 Inductive fo_op :=
 | FoSquare
@@ -656,7 +671,7 @@ Record fo_case := {
   fo_obs : observed
 }.
 
-Definition opt_dtype (g : given) : option dtype := option_map fst g.
+Definition opt_dtype (g : given) : option gdtype := option_map fst g.
 
 Definition fo_expected (c : fo_case) : outcome (dtype * list (list xval)) :=
   let d := fo_dtype c in
@@ -688,14 +703,14 @@ Definition fo_expected (c : fo_case) : outcome (dtype * list (list xval)) :=
       | FoStandardizeOn mean std p =>
           if negb (is_float p) then Unsupported else
           let P := promote d p in
-          let md := match mean with Some g => fst g | None => P end in
-          let sd := match std with Some g => fst g | None => P end in
-          let dt := promote2 (promote2 d md) sd in
+          (* (traces.astype(P) - mean) / std (repaired code, commit d743e79): numpy's result dtype of the two operations *)
+          let r1 := promote_g P (match mean with Some g => fst g | None => GArr P end) in
+          let dt := div_dtype (promote_g r1 (match std with Some g => fst g | None => GArr P end)) in
           bind_outcome (match mean with Some g => given_vec w g | None => Done (col_means w T) end) (fun m =>
           match std with
           | Some g => bind_outcome (given_vec w g) (fun s =>
               match mean with
-              | Some _ => Done (dt, fo_divide_rows 1 m (map qcabs m) s T)
+              | Some _ => Done (dt, fo_divide_rows (prec_loss r1 dt) m (map qcabs m) s T)    (* the difference is rounded in r1 *)
               | None => Done (dt, fo_divide_rows (n3 * prec_loss P dt) m (col_maxabs w T) s T)      (* the mean is a float sum over the batch *)
               end)
           | None =>
@@ -989,3 +1004,15 @@ Definition dec_check (c : dec_case) : bool :=
   | Some o => dec_outcome_eqb o (decorator_model (dec_in_array c) (dec_in_ndim c) (dec_out_array c) (dec_out_ndim c) (dec_rows_in c) (dec_rows_out c))
   | None => false
   end.
+
+(* ================================================================ 10. one preprocess object called several times *)
+(* The preprocesses are history-free: the model of the k-th call of an object is the model of a first call.  A reuse
+   case is the list of the calls made on ONE object, each with its own traces (width, row count, dtype) and observation. *)
+Inductive any_case := AComb (c : comb_case) | AFo (c : fo_case) | ATf (c : tf_case) | AFm (c : fm_case).
+
+Definition any_check (a : any_case) : bool :=
+  match a with AComb c => comb_check c | AFo c => fo_check c | ATf c => tf_check c | AFm c => fm_check c end.
+
+Definition reuse_case := list any_case.
+Definition reuse_check (l : reuse_case) : bool := forallb any_check l.
+Definition reuse_explain (l : reuse_case) : list bool := map any_check l.
